@@ -105,7 +105,7 @@ def check_dedup(case):
     return v, 'ok' if not v else 'violated', len(exp) < len(rws)
 
 
-UFIELDS = ['id', 'x1', 'x2', 'x.', 'y']
+UFIELDS = ['id', 'x1', 'x2', 'x.', 'y', 'x1_note', 'ax1']      # incl. names that merely start / end with a matching name
 SPECS = {
     'literal': (dict(unpivot_fields=[{'name': 'x1', 'keys': {'k': 'one'}}, {'name': 'x2', 'keys': {'k': 'two'}}]), True),
     'literal-reversed': (dict(unpivot_fields=[{'name': 'x2', 'keys': {'k': 'two'}}, {'name': 'x1', 'keys': {'k': 'one'}}]), True),
@@ -171,6 +171,12 @@ def tables(maxrows):
 
 def cases(tier):
     out = []
+    # key values whose hashes collide in CPython (hash(-1) == hash(-2)), 0 vs False-like, big ints
+    special = [[-1, 1], [-2, 1], [-1, 2], [2 ** 61 - 1, 1], [0, 1], [-2, 2]]
+    for n in (2, 3):
+        for rows in itertools.permutations(special, n):
+            for pk in (['a'], ['a', 'b'], ['b', 'a']):
+                out.append({'proc': 'dedup', 'rows': [list(r) for r in rows], 'pk': pk})
     maxrows = 3 if tier == 'quick' else 4
     for rows in tables(maxrows):
         conds = list(CONDS) if len(rows) <= 3 else ['eq2', 'both', 'ne2']
@@ -185,6 +191,8 @@ def cases(tier):
     fieldsets = []
     for n in (2, 3, 4, 5):
         for fs in itertools.combinations(UFIELDS, n):
+            if n == 5 and ('x1_note' in fs or 'ax1' in fs) and tier == 'quick':
+                continue
             if any(f.startswith('x') for f in fs):
                 fieldsets.append(list(fs))
     for fs in fieldsets:
